@@ -43,6 +43,7 @@ type Spec struct {
 	Hosts     []string `json:"hosts,omitempty"`
 	Paths     []string `json:"paths,omitempty"`
 	Challenge bool     `json:"challenge,omitempty"`
+	AuthSecret string  `json:"auth_secret,omitempty"` // Ingress: nginx.org/basic-auth-secret (the Secret never exists: a Configurator warning)
 	ExtraAnn  string   `json:"extra_ann,omitempty"` // value of an innocuous annotation (changes without bumping generation)
 	// vs / vsr / ts
 	Host     string      `json:"host,omitempty"`
@@ -191,6 +192,9 @@ func buildIngress(s Spec) *networking.Ingress {
 	}
 	if s.IngKind == "master" || s.IngKind == "minion" {
 		ann["nginx.org/mergeable-ingress-type"] = s.IngKind
+	}
+	if s.AuthSecret != "" {
+		ann["nginx.org/basic-auth-secret"] = s.AuthSecret
 	}
 	if strings.HasPrefix(s.ExtraAnn, "@") {
 		// an annotation with an empty value under a key that varies: maps of the same size that differ in a key only
@@ -793,7 +797,10 @@ func (g *gen) listenerSeed() []Event {
 // nothing else happens in between: a resource that loses a contest is deleted and created again at once (state
 // cached per key must not survive the object); three minions contend for one path with key order different
 // from age order; an orphan route or minion is deleted and re-created.
-func (g *gen) episode() []Event {
+const nEpisodes = 12
+
+// episode: which < 0 picks one at random
+func (g *gen) episode(which int) []Event {
 	r := g.r
 	var out []Event
 	nginx := sp("nginx")
@@ -815,7 +822,10 @@ func (g *gen) episode() []Event {
 		}
 		return s
 	}
-	switch r.Intn(11) {
+	if which < 0 {
+		which = r.Intn(nEpisodes)
+	}
+	switch which {
 	case 10:
 		// annotation-only edits (the generation does not move) of an Ingress that is being served, or of a minion that is
 		// attached: keys with empty values come and go, the number of annotations stays the same
@@ -970,6 +980,24 @@ func (g *gen) episode() []Event {
 		if r.Bool() {
 			del(w) // and the loser finally wins
 		}
+	case 11:
+		// a minion loses one of its paths to an older minion, keeps another one, and the Configurator has a warning of its
+		// own about it (its basic-auth Secret does not exist): the report must name both
+		h := vh.Pick(r, hosts[:3])
+		m := mk("ing", "ns1", "a", stamps[1])
+		m.IngKind, m.Hosts = "master", []string{h}
+		up(m, "episode-master")
+		a := mk("ing", "a-b", "a", stamps[0])
+		a.IngKind, a.Hosts, a.Paths = "minion", []string{h}, []string{"/a"}
+		up(a, "episode-minion-older")
+		b := mk("ing", "a-b", "b", stamps[len(stamps)-1])
+		b.IngKind, b.Hosts, b.Paths, b.AuthSecret = "minion", []string{h}, []string{"/a", "/b"}, "no-such-secret"
+		b = up(b, "episode-minion-loses-a-path")
+		if r.Bool() {
+			b.Gen++
+			b.Paths = []string{"/a", "/c"}
+			up(b, "episode-minion-edit")
+		}
 	case 2:
 		// three minions on one path; the first in key order is the youngest
 		h := vh.Pick(r, hosts[:3])
@@ -1086,13 +1114,18 @@ func genCase(r *vh.Rng, id int, tier string) Case {
 	if r.Chance(2, 5) {
 		evs = append(evs, g.listenerSeed()...)
 	}
-	at := -1
+	at, which := -1, -1
 	if r.Chance(1, 3) {
 		at = r.Intn(n)
 	}
+	if id >= 20 && id < 20+2*nEpisodes {
+		// every scripted episode occurs in two early cases whatever the seed; the passthrough / cert-manager ones with the flag on
+		at, which = r.Intn(n), (id-20)%nEpisodes
+		g.tls, g.cm, c.TLS, c.CertMgr = true, true, true, true
+	}
 	for i := 0; i < n; i++ {
 		if i == at {
-			evs = append(evs, g.episode()...)
+			evs = append(evs, g.episode(which)...)
 		}
 		evs = append(evs, g.next())
 	}
